@@ -53,7 +53,7 @@ PROPS["C01"] = {
     "assumptions": ["reference encoder and cargen CAR writer are correct (a wrong generator shows as a false alarm on the unchanged tree, not as a silent pass)"],
     "units": [
         {"name": "index-all", "pkg": ".", "run": "TestVfC01", "checks": T(120, 2400), "shards": T(6, 16), "timeout": T(900, 3000), "env": ROOT_ENV},
-        {"name": "index-all-bulk", "pkg": ".", "run": "TestVfC01Bulk", "checks": T(2, 48), "shards": T(2, 12), "timeout": T(900, 3000), "env": ROOT_ENV, "tiers": ("quick", "thorough")},
+        {"name": "index-all-bulk", "pkg": ".", "run": "TestVfC01Bulk", "checks": T(2, 48), "shards": T(2, 12), "timeout": T(900, 3000), "env": {"GOGC": "100"}, "shrinktime": "5s", "tiers": ("quick", "thorough")},  # big epochs: with GOGC=off a shrink loop over 10 000-block cases exhausts the RAM
     ],
 }
 
